@@ -121,3 +121,40 @@ func VerifC11_Window() {
 	verifAssert("never.unboundedly.more", len(all) <= size+100)
 	verifReach("end")
 }
+
+// C11 (both streams, at the moment the process has ended): a command writes two lines to stdout
+// and two to stderr and exits. However slowly the supervisor's readers get at them, when Run()
+// returns - the process is reported ended - all four lines are in the in-memory log, each once
+// and in the order of its stream.
+func VerifC11_Streams() {
+	w := vInit()
+	conf := vConf("p", nil)
+	w.behav["p"] = &vBehav{codes: []int{0}, lines: []string{"out-0", "out-1"}, errLines: []string{"err-0", "err-1"}}
+	vStderrReaderLast = verifChooseK("stderr.reader.scheduled.last", 2) == 1
+	r := vRunner(vProject(conf), false)
+	err := r.Run() // REAL: returns once the process has ended
+	verifAssert("project.succeeds", err == nil)
+	logs, e := r.GetProcessLog("p", 100, 0)
+	if e != nil {
+		verifFail("no.log")
+		return
+	}
+	pos := map[string]int{}
+	for i, l := range logs {
+		if _, dup := pos[l]; dup {
+			verifShape("line=" + l)
+			verifFail("line.logged.twice")
+		}
+		pos[l] = i + 1
+	}
+	for _, l := range []string{"out-0", "out-1", "err-0", "err-1"} {
+		if pos[l] == 0 {
+			verifShape("missing=" + l)
+			verifFail("line.not.in.the.log.when.the.process.has.ended")
+			break
+		}
+	}
+	verifAssert("stdout.order", pos["out-0"] < pos["out-1"] || pos["out-1"] == 0)
+	verifAssert("stderr.order", pos["err-0"] < pos["err-1"] || pos["err-1"] == 0)
+	verifReach("end")
+}
